@@ -518,7 +518,8 @@ def oco_fd(ctx):
     okb = method_name(B) == 'set' and B.args[0].args[0].op == 'sub' and is_const(B.args[0].args[0].args[1], -1)
     if okb:
       base = B.args[0].args[0].args[0].args[0]
-      okb = cmpr.same(base, spec_term(ev, "state['P'] * state['e'].reshape(-1, 1)", env)) and any(x is G for x in walk(B.args[1][0]))
+      okb = any(cmpr.same(base, spec_term(ev, src_, env)) for src_ in ("state['P'] * state['e'].reshape(-1, 1)", "state['P'] * state['e'][:, None]",
+                                                                                 "state['P'] * jnp.expand_dims(state['e'], 1)")) and any(x is G for x in walk(B.args[1][0]))
     ctx.ob('C09.R2', fi.short, f'gradient replaces the last (zero) sketch row [{alg}]', okb,
            f'the sketch must be P * e with its LAST row replaced by the (scaled) gradient; got `{show(B, maxdepth=5)[:200]}`', ctx.loc(fi),
            sample='B = (P * e[:, None]).at[-1].set(g)')
